@@ -88,7 +88,7 @@ def gen_case(seed, k, cap):
     rng.shuffle(ts)
     plain = rng.random() < 0.2
     td = G.random_type(rng, ts, G.Opts(p_attr=0.0 if plain else 0.9, max_fields=4, max_variants=4,
-                                       raw_idents=0.0, allow_empty_enum=False))
+                                       raw_idents=0.0, allow_empty_enum=False, p_repr=0.3))
     text = S.render(td, rng_for(seed, PROP, "spell", k), extras=False)
     vals = S.values(td, cap, rng)
     glue = ref_fmt(td)
